@@ -150,6 +150,8 @@ func registerSteered(sp steeredProfile) {
 
 func pickBacking(r *eng.Rng, w ...string) string { return w[r.Intn(len(w))] }
 
+func init() { run.ReclaimHook = eng.ReclaimLeakedMaps }
+
 func init() {
 	// ------------------------------------------------------------ C01
 	registerSteered(steeredProfile{
